@@ -80,6 +80,13 @@ Expected(r) ==
     [] r.op = "slice_concat" -> Ok(VList(<<Wrap(r.ty, SubSeq(r.s, 1, r.k) \o r.x), Wrap(r.ty, r.s), Wrap(r.ty, SubSeq(r.s, r.k + 1, Len(r.s)))>>))
     [] r.op = "extend_twice" -> Ok(VList(<<Wrap(r.ty, r.s \o r.x \o r.y), Wrap(r.ty, r.s \o r.x \o r.z), Wrap(r.ty, r.s \o r.x), Wrap(r.ty, r.s)>>))
     [] r.op = "in"      -> Ok(VBool(Occ(r.s, r.sub) # {}))
+    \* a slice of a range is a range: its elements, length, membership over a window around its bounds, indexing and truth
+    [] r.op = "rslice"  -> LET x == Slice(r.s, r.lo, r.hi, r.st) IN
+                           IF ~x.ok THEN Fail
+                           ELSE LET e == x.v IN
+                                Ok(VList(<<VList(MapSeq(VInt, e)), VInt(Len(e)),
+                                           VList([k \in 1..(r.w1 - r.w0) |-> VBool(\E j \in 1..Len(e) : e[j] = r.w0 + k - 1)]),
+                                           VList(MapSeq(VInt, e)), VBool(e # <<>>), VList(MapSeq(VInt, Rev(e)))>>))
 
 Good(r) == ResEq(Expected(r), r.res)
 
